@@ -36,6 +36,12 @@ Definition check_tables (consts : Z * Z * Z * Z)
   check_consts multi_pools base_gran max_block && forallb (check_create page_gran) create &&
   forallb check_pool pool && forallb check_ideal ideal.
 
+(* row: granularity, size -> answer class of alloc (0 ok, 1 InvalidArgument, 2 TooLarge); separate lemma allocerr_ok in the gen file *)
+Definition check_allocerr (row : Z * Z * Z) : bool :=
+  let '(g, size, code) := row in
+  let sz := align_up size g mod two64 in
+  code =? (if sz =? 0 then 1 else if 2147483647 <=? sz - 1 then 2 else 0).
+
 (* what a passing table means, row by row *)
 Lemma check_tables_spec consts create pool ideal : check_tables consts create pool ideal = true ->
   (forall r, In r create -> check_create (snd consts) r = true) /\
